@@ -62,9 +62,11 @@ class StepBudget:
     def _cb(self, code, off):
         self.n += 1
         if self.limit is not None and self.n > self.limit:
-            lim, self.limit = self.limit, None
-            mon.set_events(STEP_TOOL, 0)
-            raise BudgetExceeded("call-step budget %d exceeded" % lim)
+            # keep raising at every further entry into library code until the scope is left: a `finally: return` or a bare
+            # `except BaseException` in the code under test must not be able to swallow the budget and loop on
+            if self.n > self.limit + 1 and "/construct/" not in code.co_filename:
+                return
+            raise BudgetExceeded("call-step budget %d exceeded" % self.limit)
 
     def __call__(self, limit):
         return _BudgetScope(self, limit)
